@@ -92,11 +92,21 @@ func validateJSONPointer(pointer string) error {
 		return fmt.Errorf("%s: JSON pointer must start with '/'", patch.JSONPatch)
 	}
 
-	if strings.HasPrefix(pointer, "/"+document.ServiceProperty) {
+	// the member of the document an operation works on is named by the first reference token
+	// (unescaped as the patch library does it); members whose names merely begin like a
+	// protected one (publicKeys, serviceHints) are ordinary members
+	first := pointer[1:]
+	if i := strings.Index(first, "/"); i >= 0 {
+		first = first[:i]
+	}
+
+	first = strings.NewReplacer("~1", "/", "~0", "~").Replace(first)
+
+	if first == document.ServiceProperty {
 		return fmt.Errorf("%s: cannot modify services", patch.JSONPatch)
 	}
 
-	if strings.HasPrefix(pointer, "/"+document.PublicKeyProperty) {
+	if first == document.PublicKeyProperty {
 		return fmt.Errorf("%s: cannot modify public keys", patch.JSONPatch)
 	}
 
